@@ -62,12 +62,15 @@ def run(ctx):
         recs = []
         for i, c in enumerate(cs):
             recs.append(mstep.run_case(list(c["xs"]), c["mold"], bool(c["burn"]), to_cells(c["cells"]), fill=fills[i % len(fills)]))
+            if cfg.endswith("lat.cfg") and not bool(c["burn"]):
+                # the same case with every deviation from the pre-step mean a thousand times smaller (dispersions below the bound)
+                recs.append(mstep.run_case(list(c["xs"]), c["mold"], False, to_cells(c["cells"]), fill=fills[i % len(fills)], scale="tiny"))
         ok, idx, r2 = cases.validate_records("MStepTrace", CFG_T, recs, tmp, "conf_" + cfg[:-4], env={"EXPECT_COUNT": str(len(cs))})
         ctx.traces += len(recs)
         ctx.states += r2.distinct
         ctx.transitions += r2.generated
         for r in recs:
-            ctx.case(key=(tuple(r["xs"]), r["mold"], r["burn"], repr(r["cells"])))
+            ctx.case(key=(tuple(r["xs"]), r["mold"], r["burn"], repr(r["cells"]), r["scale"]))
         ctx.log(f"{cfg}: {len(recs)} cases run through the real update rules -> {'all conform' if ok else 'MISMATCH'} ({r2.wall:.1f}s)")
         ctx.sample({k: v for k, v in recs[len(recs) // 2].items() if k != "cells"})
         if not ok:
@@ -83,13 +86,13 @@ def run(ctx):
     ctx.log(f"TLC MC_MixStep.cfg: {res.distinct} cases, violated={res.violated} ({res.wall:.1f}s)")
     if res.violated:
         ctx.violation({"check": "design", "invariant": res.violated[0]}, f"MixStep.tla violates {res.violated}", replay=res.trace_text[:3000])
-    recs = [mstep.run_mix_case(list(c["xs"]), list(c["ws"]), list(c["mold"]), bool(c["burn"])) for c in cs]
+    recs = [mstep.run_mix_case(list(c["xs"]), list(c["ws"]), list(c["mold"]), bool(c["burn"]), far=bool(c["far"])) for c in cs]
     ok, idx, r2 = cases.validate_records("MixStepTrace", CFG_MIX, recs, tmp, "conf_mix", env={"EXPECT_COUNT": str(len(cs))})
     ctx.traces += len(recs)
     ctx.states += r2.distinct
     ctx.transitions += r2.generated
     for r in recs:
-        ctx.case(key=("mix", tuple(r["xs"]), tuple(r["ws"]), tuple(r["mold"]), r["burn"]))
+        ctx.case(key=("mix", tuple(r["xs"]), tuple(r["ws"]), tuple(r["mold"]), r["burn"], r["far"]))
     ctx.log(f"MC_MixStep.cfg: {len(recs)} cases run through the mixture model's update rules -> {'all conform' if ok else 'MISMATCH'} ({r2.wall:.1f}s)")
     ctx.sample(recs[len(recs) // 3])
     if not ok:
